@@ -53,13 +53,43 @@ def _hash_files(paths):
     return h
 
 
+_dep_cache = {}
+
+
+def _local_deps(path, seen=None):
+    """Quoted includes of an engine source that resolve inside /verif/engines (recursively)."""
+    import re
+    seen = seen if seen is not None else set()
+    if path in seen or not os.path.exists(path):
+        return seen
+    seen.add(path)
+    with open(path, errors="replace") as f:
+        for m in re.finditer(r'^\s*#\s*include\s+"([^"]+)"', f.read(), re.M):
+            for base in (os.path.dirname(path), f"{VERIF}/engines", f"{VERIF}/engines/common"):
+                cand = os.path.join(base, m.group(1))
+                if os.path.exists(cand):
+                    _local_deps(cand, seen)
+                    break
+    return seen
+
+
+def tu_key(src, defines):
+    """Hash of one translation unit's own sources (the library headers are covered by tree_hash())."""
+    k = (src, tuple(defines))
+    if k not in _dep_cache:
+        h = _hash_files(sorted(_local_deps(src)))
+        h.update(repr(defines).encode())
+        _dep_cache[k] = h.hexdigest()[:10]
+    return _dep_cache[k]
+
+
 def tree_hash():
-    """Hash of everything an engine binary depends on."""
+    """Hash of the library under test (headers, C interface) and of the hook implementation + flags."""
     global _tree_hash_cache
     if _tree_hash_cache:
         return _tree_hash_cache
     files = []
-    for root in (f"{REPO}/include/pgm", f"{REPO}/c-interface", f"{VERIF}/engines", f"{VERIF}/hooks"):
+    for root in (f"{REPO}/include/pgm", f"{REPO}/c-interface", f"{VERIF}/hooks"):
         for d, _, fs in os.walk(root):
             if "/examples" in d:
                 continue
@@ -129,8 +159,10 @@ def ensure(binaries):
     jobs = {}
     for b in binaries:
         d = build_dir(b["flavour"])
+        b["_objs"] = []
         for src, defines, objname in b["tus"]:
-            obj = os.path.join(d, objname + ".o")
+            obj = os.path.join(d, f"{objname}.{tu_key(src, defines)}.o")
+            b["_objs"].append(obj)
             jobs[obj] = (b["flavour"], src, defines, obj)
     t0 = time.time()
     todo = [j for j in jobs.values() if not os.path.exists(j[3])]
@@ -143,8 +175,9 @@ def ensure(binaries):
     out = {}
     for b in binaries:
         d = build_dir(b["flavour"])
-        exe = os.path.join(d, b["name"])
-        objs = [os.path.join(d, o + ".o") for _, _, o in b["tus"]]
+        objs = b["_objs"]
+        lk = hashlib.sha256(" ".join(objs).encode()).hexdigest()[:10]
+        exe = os.path.join(d, f"{b['name']}.{lk}")
         if not os.path.exists(exe) or any(os.path.getmtime(o) > os.path.getmtime(exe) for o in objs):
             _link(b["flavour"], objs, exe, b.get("link", []))
         out[(b["name"], b["flavour"])] = exe
